@@ -504,3 +504,29 @@ def kernel_prologue(repo, res):
                 between = t[j + 2:i].strip()
                 if between:
                     res.fail(key, f"numba {kind} template executes `{between[:60]}` before the generated body", tm.rel)
+
+
+@rule(
+    "NUMBA-COMPLEX-DOMAIN",
+    ["C18"],
+    "C selects the real or complex math function by the *declared* type of the argument (SCALAR -> csqrt, clog, cpow ...); "
+    "NumPy selects it by the run-time type. For functions whose real version has a restricted domain (sqrt, log, power, "
+    "arccos, arcsin, arccosh, arctanh) the numba formatter must therefore force a complex argument when the declared type is "
+    "SCALAR under a complex scalar type; a handler that never looks at the argument type cannot do so",
+    min_instances=1,
+)
+def numba_complex_domain(repo, res):
+    m = repo.mod("ffcx.codegeneration.numba.formatter")
+    cands = [f for f in m.funcs.values() if f.node.name == "_" and "MathFunction" in ast.unparse(f.node.args)]
+    if len(cands) != 1:
+        raise AnalysisError("numba formatter: MathFunction handler not found")
+    h = cands[0]
+    res.functions.add(h.key)
+    key = "numba.formatter:MathFunction:real-domain-functions-in-complex-mode"
+    res.ob(key)
+    src = ast.unparse(h.node)
+    looks_at_type = re.search(r"\.dtype\b|scalar_type|complex", src) is not None
+    if not looks_at_type:
+        res.fail(key, "the numba MathFunction handler emits np.<function>(args) without regard to the declared type: in a complex128 kernel "
+                 "sqrt(-abs(f)) is csqrt(<double _Complex>) = i*sqrt(|f|) in C but np.sqrt(<float>) = nan in numba (likewise ln, power, acos, asin, acosh, atanh "
+                 "of real-valued arguments outside the real domain)", m.line(h.node))
